@@ -89,6 +89,11 @@ chk('C03', 'TLA+ message-object model with documented ranges (MsgDomain/MsgObj):
     'bool values and generators are not probed; unknown type in the constructor is left to C14.',
     'DESIGN.md 5/C03')
 
+chk('C15', 'TLA+ heap of message objects (MsgHeap) with Isolation / FrozenNeverChanges as action properties, explored by TLC over all operation histories; each history replayed on real objects comparing EVERY live object with the specified heap after every step',
+    'TLC explores every history of 3 operations over all four classes (Message, MetaMessage set_tempo, MetaMessage sequencer_specific, UnknownMetaMessage) and of 4 operations per single class (thorough: 4 operations over all classes, 667 000 histories, plus simulated depth-10 histories) from new, copy (no override / valid / invalid value / time), freeze, thaw, attribute assignment (valid, invalid, on frozen objects), hashing two frozen objects and freeze/thaw of None, on a heap of up to 3 objects. The driver keeps index -> real object and after every step compares class, frozen-ness and attributes of every live object with the specification heap (aliasing is a change in an object the action did not name); it also checks identity (copy/thaw return new objects, freezing a frozen message returns it), equality, that copy with overrides behaves exactly like constructing the class afresh, equal frozen messages hash equal and collide as dictionary keys, and None maps to None.',
+    'Value domain {1, 2, one out-of-range value} per class.',
+    'DESIGN.md 5/C15')
+
 
 def build(not_applicable):
     checks = []
